@@ -36,12 +36,16 @@ MODELLED = ('sr/coding.py CodedConcept.__init__ (attribute selection, meaning gu
             '(type check, exactly-one check, required attributes, copy vs alias incl. class change of the original and the '
             'depth of the copy for one nested sequence item), from_code; pydicom Code.__eq__/__ne__/__hash__ incl. SRT->SCT '
             'normalisation; set/dict with several keys as hash-then-identity-then-eq lookup (first key kept, last value '
-            'wins); histories of API calls and user writes over a heap of datasets')
+            'wins); histories of API calls and user writes over a heap of datasets, incl. user edits of the code value / its '
+            'attribute (form), scheme designator and version, deepcopy / pickle copies, and hash / set / dict uses of an object '
+            'BEFORE such edits (hash = function of the current record; a pickle of the whole population into another '
+            'interpreter = identity on the heap, the receiving interpreter has another string hash H)')
 NOT_EXECUTED = ['from_code(plain Dataset) (cls(*dataset) iterates data elements; modelled as "unsupported", not generated)',
                 'histories that address a nested sequence item directly (only reached through its parent)',
+                'copy.copy / Dataset.copy() of a concept (shallow: shares elements; not modelled)',
                 'sets of several malformed concepts (CPython probing order would be observable; single-key sets are driven)']
 STRATA = ['pair', 'pair_broken', 'triple', 'triple_row', 'store', 'store_file', 'from_ds', 'from_ds_bad', 'from_code',
-          'eq_any', 'set', 'set_broken', 'history']
+          'eq_any', 'set', 'set_broken', 'history', 'history_edit', 'history_xproc']
 RULE = ('alphabet 3 schemes (SRT, SCT, DCM) x 6 values (SRT alias source, its SCT image, 16 chars, 17 chars, URN, URL) '
         'x 2 meanings x 2 versions x 2 representations = 144 codes; highdicom objects are produced by a random route '
         '(__init__, from_code, from_dataset with the value in each of the 3 attributes, file round trip). '
@@ -60,7 +64,15 @@ RULE = ('alphabet 3 schemes (SRT, SCT, DCM) x 6 values (SRT alias source, its SC
         'with a deleted attribute as only key; history: 2-10 operations among CodedConcept(..), plain Dataset (any subset of '
         'code-value attributes, optional nested item), from_dataset(copy/alias/non-dataset), from_code(Code/concept), writes to '
         'CodeMeaning of an object or of its nested item, == of two objects: results of every call, all objects at the end, '
-        'which object owns which nested item. '
+        'which object owns which nested item, hash(obj) of every object at the end (as the candidate string scheme+value with '
+        'that hash). '
+        'history_edit: 3-14 operations of the same machine plus: obj.<code-value attribute> = v (same or another form; the other '
+        'code-value attributes deleted), obj.CodingSchemeDesignator = s, CodingSchemeVersion set / deleted, deepcopy(obj) / '
+        'pickle round trip, hash(obj) (+ is it the hash of Code(obj.value, obj.scheme_designator)), and a lookup op: {a} and '
+        '{a: 1} probed with b, with Code(b), {Code(a)} probed with b and a, Code(a) in {a}; 45% of the creations are followed at '
+        'once by a hash / lookup of the new object so that hashed-then-copied-then-edited objects are frequent. '
+        'history_xproc: such a history whose first k operations run in ANOTHER interpreter (own PYTHONHASHSEED); the whole '
+        'population is pickled over, the remaining operations and all final observations run in the checking process. '
         'non-trivial = reference-equal pair of distinct specs / non-default attribute / accepted dataset; distinct by case hash')
 EXHAUSTIVE = {'quick': False, 'thorough': True}
 
@@ -234,6 +246,13 @@ def gen_cases(rng, tier):
         for isc in (False,):
             cases.append({'kind': 'from_code', 'c': _spec('DCM', '121', m, None, 'PD'), 'is_concept': isc})
     cases += gen_eq_any(rng, tier, full) + gen_sets(rng, tier, full) + gen_histories(rng, tier, full)
+    # objects with a past: used as a key, copied, edited, sent to another interpreter - in any order
+    for c in gen_histories(rng, tier, full, edit=True, n=260 if tier == 'quick' else 4000):
+        cases.append(dict(c, kind='history_edit'))
+    for c in gen_histories(rng, tier, full, edit=True, n=20 if tier == 'quick' else 120):
+        k = len(c['ops'])
+        cases.append(dict(c, kind='history_xproc', cut=rng.choice([k, k, max(1, k - 1), max(1, k // 2)]),
+                          hseed=rng.randrange(1, 2 ** 31)))
     return cases
 
 
@@ -305,16 +324,64 @@ def _wf(o):
     return o['n'] == 1 and o['m'] and o['s']
 
 
-def gen_histories(rng, tier, full):
-    """sequences of API calls and user actions on a growing population of datasets (top-level addresses only)"""
+EDIT_VALUES = VALUES + ['T-B7000', '111002', 'abc', 'Z' * 17, 'urn:x']
+EDIT_SCHEMES = SCHEMES + ['99TEST', 'SC']
+PLAIN_OPS = ['init', 'new', 'new', 'fd', 'fd', 'fd', 'fc', 'setm', 'setn', 'eq', 'eq']
+EDIT_OPS = ['init', 'init', 'new', 'fd', 'fd', 'fd', 'fc', 'setm', 'setn', 'eq', 'eq', 'setcode', 'setcode', 'setcode',
+            'setscheme', 'setscheme', 'setver', 'clone', 'clone', 'clone', 'hash', 'hash', 'hash', 'lookup', 'lookup']
+
+
+def _natural_attr(v):
+    return 'URNCodeValue' if (v.startswith('urn') or '://' in v) else 'LongCodeValue' if len(v) > 16 else 'CodeValue'
+
+
+def gen_histories(rng, tier, full, edit=False, n=None):
+    """sequences of API calls and user actions on a growing population of datasets (top-level addresses only);
+    edit=True: also edits of the code itself, copies outside the API and uses as a key (objects with a past)"""
     out = []
-    for _ in range(150 if tier == 'quick' else 3000):
+    for _ in range(n if n is not None else (150 if tier == 'quick' else 3000)):
         sim, ops = [], []          # sim[i]: dict(top, cc, n = number of code-value attributes, m, s, kid)
-        for _ in range(rng.choice([2, 3, 4, 6, 8, 10])):
+        budget = rng.choice([3, 4, 5, 6, 8, 10, 12, 14]) if edit else rng.choice([2, 3, 4, 6, 8, 10])
+        while len(ops) < budget:
             tops = [i for i, o in enumerate(sim) if o['top']]
-            kind = rng.choice(['init', 'new', 'new', 'fd', 'fd', 'fd', 'fc', 'setm', 'setn', 'eq', 'eq'])
-            if kind in ('fd', 'setm', 'setn', 'eq') and not tops:
-                kind = 'new'
+            kind = rng.choice(EDIT_OPS if edit else PLAIN_OPS)
+            if kind not in ('init', 'new', 'fc') and not tops:
+                kind = rng.choice(['init', 'new']) if edit else 'new'
+            n_before = len(sim)
+            if kind == 'setcode':
+                a = rng.choice(tops)
+                v = rng.choice(EDIT_VALUES)
+                attr = _natural_attr(v) if rng.random() < 0.6 else rng.choice(ATTRS)
+                ops.append({'op': 'setcode', 'a': a, 'attr': attr, 'v': v})
+                sim[a]['n'] = 1
+                continue
+            if kind == 'setscheme':
+                a = rng.choice(tops)
+                ops.append({'op': 'setscheme', 'a': a, 's': rng.choice(EDIT_SCHEMES)})
+                sim[a]['s'] = True
+                continue
+            if kind == 'setver':
+                ops.append({'op': 'setver', 'a': rng.choice(tops), 'ver': rng.choice(VERSIONS + ['1.0'])})
+                continue
+            if kind == 'clone':
+                a = rng.choice(tops)
+                ops.append({'op': 'clone', 'a': a, 'how': rng.choice(['deepcopy', 'pickle'])})
+                kid = sim[a]['kid']
+                sim.append(dict(sim[a], kid=len(sim) + 1 if kid is not None else None))
+                if kid is not None:
+                    sim.append({'top': False})
+                if sim[n_before]['cc'] and rng.random() < 0.45:
+                    ops.append(_use_as_key(rng, sim, n_before))
+                continue
+            if kind == 'hash':
+                ccs = [i for i in tops if sim[i]['cc']]
+                ops.append({'op': 'hash', 'a': rng.choice(ccs) if ccs and rng.random() < 0.85 else rng.choice(tops)})
+                continue
+            if kind == 'lookup':
+                ccs = [i for i in tops if sim[i]['cc']] or tops
+                pool = ccs if rng.random() < 0.85 else tops
+                ops.append({'op': 'lookup', 'a': rng.choice(pool), 'b': rng.choice(pool)})
+                continue
             if kind == 'init':
                 sp = rng.choice(full)
                 m = sp['m'] if rng.random() < 0.9 else 'M' * 65
@@ -363,8 +430,18 @@ def gen_histories(rng, tier, full):
                 ops.append({'op': 'setn', 'a': rng.choice(tops), 'm': rng.choice(['changed', 'inner meaning'])})
             else:
                 ops.append({'op': 'eq', 'a': rng.choice(tops), 'b': rng.choice(tops)})
+            if edit and len(sim) > n_before and sim[n_before].get('cc') and rng.random() < 0.45:
+                ops.append(_use_as_key(rng, sim, n_before))
         out.append({'kind': 'history', 'ops': ops})
     return out
+
+
+def _use_as_key(rng, sim, a):
+    """the object just created serves as a key at once (so that it has a past when it is copied / edited later)"""
+    if rng.random() < 0.6:
+        return {'op': 'hash', 'a': a}
+    ccs = [i for i, o in enumerate(sim) if o['top'] and o['cc']] or [a]
+    return {'op': 'lookup', 'a': a, 'b': rng.choice(ccs + [a])}
 
 
 # --------------------------------------------------------------------------------------------
@@ -559,48 +636,172 @@ def run_impl(c):
         return [ident(st), [catch(lambda: x in st) for x in objs + probes],
                 [next(i for i, o in enumerate(objs) if o is e) for e in d],
                 [catch(lambda: d.get(x)) for x in objs + probes]]
-    if k == 'history':
+    if k in ('history', 'history_edit'):
         objs, results = [], []
-
-        def index(o):
-            for i, e in enumerate(objs):
-                if e is o:
-                    return i
-            objs.append(o)
-            if 'EquivalentCodeSequence' in o:
-                objs.append(o.EquivalentCodeSequence[0])
-            return index(o)
-        for op in c['ops']:
-            t = op['op']
-            if t == 'init':
-                r = catch(lambda: CodedConcept(op['v'], op['s'], op['m'], op['ver']))
-            elif t == 'fc':
-                arg = objs[op['a']] if 'a' in op else Code(op['c']['v'], op['c']['s'], op['c']['m'], op['c']['ver'])
-                r = catch(lambda: CodedConcept.from_code(arg))
-            elif t == 'fd':
-                arg = objs[op['a']] if op['a'] is not None else 'not a dataset'
-                r = catch(lambda: CodedConcept.from_dataset(arg, copy=op['copy']))
-            elif t == 'new':
-                r = _plain(None, None, op)
-            elif t == 'setm':
-                objs[op['a']].CodeMeaning = op['m']
-                r = objs[op['a']]
-            elif t == 'setn':
-                def setn():
-                    it = objs[op['a']].EquivalentCodeSequence[0]
-                    it.CodeMeaning = op['m']
-                    return it
-                r = catch(setn)
-            elif t == 'eq':
-                r = catch(lambda: objs[op['a']] == objs[op['b']])
-                results.append(r)
-                continue
-            results.append(r if isinstance(r, Err) else index(r))
-        final = [[type(o) is CodedConcept] + _strs([getattr(o, kw, None) for kw in ATTRS + ['CodeMeaning',
-                 'CodingSchemeDesignator', 'CodingSchemeVersion']]) for o in objs]
-        kids = [index(o.EquivalentCodeSequence[0]) if 'EquivalentCodeSequence' in o else None for o in list(objs)]
-        return [results, final, kids]
+        _run_ops(c['ops'], _cands(c['ops']), objs, results)
+        return _history_final(objs, results, _cands(c['ops']))
+    if k == 'history_xproc':
+        # the first `cut` operations run in another interpreter (own hash salt); the population is pickled over
+        objs, results = _xproc_child_call(c)
+        _run_ops(c['ops'][c['cut']:], _cands(c['ops']), objs, results)
+        return _history_final(objs, results, _cands(c['ops']))
     raise ValueError(k)
+
+
+def _cands(ops):
+    """every string scheme + value that an object of this history can carry (hash(obj) is reported as the candidate
+    with that hash, so the model can be compared on the hashed STRING)"""
+    schemes, values = set(), set()
+    for op in ops:
+        t = op['op']
+        if t == 'init':
+            schemes.add(op['s']); values.add(op['v'])
+        elif t == 'new':
+            if op['s'] is not None:
+                schemes.add(op['s'])
+            values.update(v for v in op['ds'].values() if v is not None)
+        elif t == 'fc' and 'c' in op:
+            schemes.add(op['c']['s']); values.add(op['c']['v'])
+        elif t == 'setcode':
+            values.add(op['v'])
+        elif t == 'setscheme':
+            schemes.add(op['s'])
+    return sorted(s_ + v for s_ in schemes for v in values)
+
+
+def _key_of(h, cands):
+    for k in cands:
+        if hash(k) == h:
+            return k
+    return '?no candidate scheme+value has this hash'
+
+
+def _index(objs, o):
+    for i, e in enumerate(objs):
+        if e is o:
+            return i
+    objs.append(o)
+    if 'EquivalentCodeSequence' in o:
+        objs.append(o.EquivalentCodeSequence[0])
+    return _index(objs, o)
+
+
+def _code_now(o):
+    from pydicom.sr.coding import Code
+    return Code(o.value, o.scheme_designator, 'x', o.scheme_version)
+
+
+def _run_ops(ops, cands, objs, results):
+    """run the operations of a history on the population `objs` (extended in place)"""
+    import copy
+    import pickle
+    from pydicom.sr.coding import Code
+    from highdicom.sr.coding import CodedConcept
+    for op in ops:
+        t = op['op']
+        if t == 'init':
+            r = catch(lambda: CodedConcept(op['v'], op['s'], op['m'], op['ver']))
+        elif t == 'fc':
+            arg = objs[op['a']] if 'a' in op else Code(op['c']['v'], op['c']['s'], op['c']['m'], op['c']['ver'])
+            r = catch(lambda: CodedConcept.from_code(arg))
+        elif t == 'fd':
+            arg = objs[op['a']] if op['a'] is not None else 'not a dataset'
+            r = catch(lambda: CodedConcept.from_dataset(arg, copy=op['copy']))
+        elif t == 'new':
+            r = _plain(None, None, op)
+        elif t == 'setm':
+            objs[op['a']].CodeMeaning = op['m']
+            r = objs[op['a']]
+        elif t == 'setn':
+            def setn():
+                it = objs[op['a']].EquivalentCodeSequence[0]
+                it.CodeMeaning = op['m']
+                return it
+            r = catch(setn)
+        elif t == 'setcode':
+            r = objs[op['a']]
+            for kw in ATTRS:
+                if kw != op['attr'] and kw in r:
+                    delattr(r, kw)
+            setattr(r, op['attr'], op['v'])
+        elif t == 'setscheme':
+            r = objs[op['a']]
+            r.CodingSchemeDesignator = op['s']
+        elif t == 'setver':
+            r = objs[op['a']]
+            if op['ver'] is not None:
+                r.CodingSchemeVersion = op['ver']
+            elif 'CodingSchemeVersion' in r:
+                del r.CodingSchemeVersion
+        elif t == 'clone':
+            src = objs[op['a']]
+            r = copy.deepcopy(src) if op['how'] == 'deepcopy' else pickle.loads(pickle.dumps(src))
+        elif t == 'eq':
+            results.append(catch(lambda: objs[op['a']] == objs[op['b']]))
+            continue
+        elif t == 'hash':
+            def hash_():
+                o = objs[op['a']]
+                h = hash(o)
+                return [_key_of(h, cands), h == hash(_code_now(o))]
+            results.append(catch(hash_))
+            continue
+        elif t == 'lookup':
+            def lookup():
+                oa, ob = objs[op['a']], objs[op['b']]
+                st, d = {oa}, {oa: 1}
+                r = [ob in st, d.get(ob) == 1]
+                ca, cb = _code_now(oa), _code_now(ob)
+                return r + [cb in st, ob in {ca}, ca in st, oa in {ca}]
+            results.append(catch(lookup))
+            continue
+        else:
+            raise ValueError(t)
+        results.append(r if isinstance(r, Err) else _index(objs, r))
+
+
+def _history_final(objs, results, cands):
+    from highdicom.sr.coding import CodedConcept
+    final = [[type(o) is CodedConcept] + _strs([getattr(o, kw, None) for kw in ATTRS + ['CodeMeaning',
+             'CodingSchemeDesignator', 'CodingSchemeVersion']]) for o in objs]
+    kids = [_index(objs, o.EquivalentCodeSequence[0]) if 'EquivalentCodeSequence' in o else None for o in list(objs)]
+    hashes = [catch(lambda: _key_of(hash(o), cands)) for o in objs]
+    return [results, final, kids, hashes]
+
+
+_CHILD_MARK = b'\n===C17-XPROC-PICKLE===\n'
+
+
+def _xproc_child_call(c):
+    """run ops[:cut] in a fresh interpreter with its own PYTHONHASHSEED and unpickle its population here"""
+    import json
+    import pickle
+    import subprocess
+    seed = c['hseed']
+    if str(seed) == os.environ.get('PYTHONHASHSEED'):
+        seed += 1
+    env = dict(os.environ, PYTHONHASHSEED=str(seed), PYTHONDONTWRITEBYTECODE='1')
+    payload = json.dumps({'ops': c['ops'][:c['cut']], 'cands': _cands(c['ops'])})
+    p = subprocess.run([sys.executable, os.path.abspath(__file__), '--xproc-child'], input=payload.encode(), env=env,
+                       stdout=subprocess.PIPE, stderr=subprocess.PIPE, timeout=300)
+    if p.returncode != 0 or _CHILD_MARK not in p.stdout:
+        raise RuntimeError('xproc child failed: ' + p.stderr.decode(errors='replace')[-1500:])
+    objs, results = pickle.loads(p.stdout.split(_CHILD_MARK, 1)[1])
+    return objs, results
+
+
+def _xproc_child_main():
+    import json
+    import pickle
+    warnings.simplefilter('ignore')
+    req = json.loads(sys.stdin.read())
+    common.import_highdicom()
+    objs, results = [], []
+    _run_ops(req['ops'], req['cands'], objs, results)
+    sys.stdout.flush()
+    sys.stdout.buffer.write(_CHILD_MARK + pickle.dumps((objs, results)))
+    sys.stdout.buffer.flush()
+    return 0
 
 
 def _plain(attr, sp, op=None):
@@ -694,7 +895,8 @@ def coq_term(c):
     if k in ('set', 'set_broken'):
         rl = lambda sps: '[' + '; '.join(f'({_route(sp)}, {_code(sp)})' for sp in sps) + ']'
         return f"(run_set {_table(*c['objs'], *c['probes'])} {rl(c['objs'])} {rl(c['probes'])})"
-    if k == 'history':
+    if k in ('history', 'history_edit', 'history_xproc'):
+        # (history_xproc: the pickle of the whole population into another interpreter is the identity on the model's heap)
         vs, terms = [], []
         for op in c['ops']:
             t = op['op']
@@ -722,8 +924,23 @@ def coq_term(c):
                 o = f"OSetMeaning {op['a']}%nat {coq_string(op['m'])}"
             elif t == 'setn':
                 o = f"OSetNestedMeaning {op['a']}%nat {coq_string(op['m'])}"
-            else:
+            elif t == 'setcode':
+                vs.append({'v': op['v']})
+                o = f"OSetCode {op['a']}%nat {_ATTR[op['attr']]} {coq_string(op['v'])}"
+            elif t == 'setscheme':
+                o = f"OSetScheme {op['a']}%nat {coq_string(op['s'])}"
+            elif t == 'setver':
+                o = f"OSetVersion {op['a']}%nat {_ostr(op['ver'])}"
+            elif t == 'clone':
+                o = f"OClone {op['a']}%nat"
+            elif t == 'hash':
+                o = f"OHash {op['a']}%nat"
+            elif t == 'lookup':
+                o = f"OLookup {op['a']}%nat {op['b']}%nat"
+            elif t == 'eq':
                 o = f"OEq {op['a']}%nat {op['b']}%nat"
+            else:
+                raise ValueError(t)
             terms.append(o)
         return f"(run_history {_table(*vs)} [{'; '.join(terms)}])"
     raise ValueError(k)
@@ -927,8 +1144,8 @@ def oracle(c, out):
             if isinstance(x, Err) and x.kind not in ('AttributeError', 'TypeError'):
                 return f'unexpected outcome {x} on a concept with deleted attributes'
         return None
-    if k == 'history':
-        results, final, kids = out
+    if k in ('history', 'history_edit', 'history_xproc'):
+        results, final, kids, hashes = out
         # every object of class CodedConcept is exactly one code (the invariant of the API)
         for i, (cc, cv, lcv, urn, m, s_, ver) in enumerate(final):
             if cc and (sum(x is not None for x in (cv, lcv, urn)) != 1 or m is None or s_ is None):
@@ -953,6 +1170,40 @@ def oracle(c, out):
                     return f'from_dataset(copy={op["copy"]}) of object {op["a"]} returned object {r}'
                 if isinstance(r, Err) and r.kind not in ('AttributeError', 'TypeError'):
                     return f'from_dataset raised {r}'
+            if op['op'] == 'clone' and (isinstance(r, Err) or r == op['a']):
+                return f'deepcopy / pickle of object {op["a"]} gave {r}'
+            if op['op'] == 'hash':
+                # a plain Dataset is unhashable (pydicom); a concept must hash like the Code of its current scheme + value
+                if isinstance(r, Err):
+                    if r.kind != 'TypeError':
+                        return f'hash(object {op["a"]}) raised {r}'
+                elif r[1] is not True:
+                    return (f'operation {n}: hash(object {op["a"]}) is the hash of {r[0]!r}, not the hash of the pydicom Code '
+                            f'with the scheme and value the object carries at that moment')
+            if op['op'] == 'lookup':
+                if isinstance(r, Err):
+                    if r.kind != 'TypeError':
+                        return f'set / dict keyed by object {op["a"]} raised {r}'
+                else:
+                    b_in_a, b_get_a, cb_in_a, b_in_ca, ca_in_a, a_in_ca = r
+                    if not (ca_in_a and a_in_ca):
+                        return (f'operation {n}: object {op["a"]} and the pydicom Code with its current scheme, value and '
+                                f'version do not find each other: Code in {{obj}} = {ca_in_a}, obj in {{Code}} = {a_in_ca}')
+                    if len({b_in_a, b_get_a, cb_in_a, b_in_ca}) != 1:
+                        return (f'operation {n}: lookups that differ only in the class representing a code disagree: '
+                                f'b in {{a}} = {b_in_a}, {{a: 1}}.get(b) = {b_get_a}, Code(b) in {{a}} = {cb_in_a}, '
+                                f'b in {{Code(a)}} = {b_in_ca}')
+                    if op['a'] == op['b'] and not b_in_a:
+                        return f'operation {n}: object {op["a"]} is not found in the set that holds it'
+            n += 1
+        # at the end every concept hashes as scheme designator + value it carries NOW, whatever its past
+        for i, ((cc, cv, lcv, urn, m, s_, ver), hk) in enumerate(zip(final, hashes)):
+            if cc:
+                want = s_ + next(x for x in (cv, lcv, urn) if x is not None)
+                if hk != want:
+                    return (f'object {i} carries scheme + value {want!r} at the end of the history but hash(object) is '
+                            f'{"the hash of " + repr(hk) if isinstance(hk, str) and not hk.startswith("?") else hk}: '
+                            f'not the hash of the pydicom Code / a fresh CodedConcept with the same scheme and value')
         return None
     return f'unknown kind {k}'
 
@@ -977,6 +1228,15 @@ def nontrivial(c, out):
         return not isinstance(out, Err) and len(out[0]) < len(c['objs'])
     if k == 'history':
         return any(op['op'] == 'fd' and not isinstance(r, Err) for op, r in zip(c['ops'], out[0]))
+    if k in ('history_edit', 'history_xproc'):
+        # an object that was used as a key and edited (itself, or a copy of it) afterwards
+        seen = False
+        for op, r in zip(c['ops'], out[0]):
+            if op['op'] in ('hash', 'lookup') and not isinstance(r, Err):
+                seen = True
+            if seen and op['op'] in ('setcode', 'setscheme'):
+                return True
+        return k == 'history_xproc' and seen
     return True
 
 
@@ -1006,6 +1266,22 @@ def shrink(c):
             yield dict(c, ver=None)
         if c['orig_cc']:
             yield dict(c, orig_cc=False)
+    if k in ('history', 'history_edit', 'history_xproc'):
+        ops = c['ops']
+
+        def with_ops(new_ops):
+            d = dict(c, ops=new_ops)
+            if k == 'history_xproc':
+                d['cut'] = max(1, min(c['cut'], len(new_ops)))
+            return d
+        if len(ops) > 1:
+            yield with_ops(ops[:-1])
+        # operations that create no object can be dropped without renumbering the others
+        for i in range(len(ops) - 1, -1, -1):
+            if len(ops) > 1 and ops[i]['op'] in ('hash', 'lookup', 'eq', 'setm', 'setn', 'setcode', 'setscheme', 'setver'):
+                yield with_ops(ops[:i] + ops[i + 1:])
+        if k == 'history_xproc' and c['cut'] > 1:
+            yield dict(c, cut=c['cut'] - 1)
 
 
 def extra_obligations(work):
@@ -1015,4 +1291,6 @@ def extra_obligations(work):
 
 
 if __name__ == '__main__':
+    if sys.argv[1:2] == ['--xproc-child']:
+        sys.exit(_xproc_child_main())
     sys.exit(common.main(sys.modules[__name__]))
